@@ -10,12 +10,14 @@ for t in constgen limbgen asmgen bigintgen effgen; do
   if [ $t = limbgen ] && ! grep -q Gen/FfRoutines.v coq/_CoqProject; then continue; fi
   if [ $t = bigintgen ] && ! grep -q Gen/BigIntRoutines.v coq/_CoqProject; then continue; fi
   if [ $t = asmgen ] && ! grep -q Gen/FfAsm.v coq/_CoqProject; then continue; fi
-  if [ -d tools/$t ]; then (cd tools/$t && go build -o /verif/_build/bin/$t .); /verif/_build/bin/$t /repo /verif; fi
+  if [ -d tools/$t ]; then (cd tools/$t && go build -o /verif/_build/bin/$t .); /verif/_build/bin/$t /repo /verif || echo "setup: $t rc=$? (reported per property by check.py)"; fi
 done
 cd /verif/coq
 coq_makefile -f _CoqProject -o Makefile
-timeout 7000 make -j16 > /verif/_build/make.log 2>&1 || { tail -50 /verif/_build/make.log; echo "setup: Coq build failed"; exit 1; }
-/verif/tools/build_driver.sh
+# -k: a proof that does not go through on this tree is reported by the check of
+# the property that depends on it (check.py), not by the set-up
+timeout 7000 make -k -j16 > /verif/_build/make.log 2>&1 || { grep -B2 -A6 '^Error' /verif/_build/make.log | head -60; echo "setup: some Coq files did not compile; the per-property checks report which properties are affected"; }
+/verif/tools/build_driver.sh || echo "setup: driver not built (checks rebuild it)"
 cp /repo/go.sum /verif/harness/go.sum
 (cd /verif/harness && go build -tags verif -o /verif/_build/bin/harness . && go build -race -tags verif -o /verif/_build/bin/harness_race . && (GOARCH=386 CGO_ENABLED=0 go build -tags verif -o /verif/_build/bin/harness_386 . || true))
 echo "setup: ok"
